@@ -307,4 +307,38 @@ PROPS = {
         "bounds": {"quick": "LEN 1..3, depth 3", "thorough": "LEN 2 depth 4; random walks depth 12 (LEN 2) and 10 (LEN 4)"},
         "assumptions": [],
     },
+    "C20": {
+        "title": "every ingestion path builds the same estimator; concatenate! adds nothing",
+        "mc": [],
+        "replay": [{"module": "Gen_Ingest", "cfg": "Gen_Ingest.cfg", "overrides": {"MaxLen": ("4", "5"), "MaxSteps": ("4", "5")}, "family": "ingest"},
+                   gen_q("small", "E0"), gen_mm("seq", maxlen=("4", "5"))],
+        "rule": "every behaviour of Ingest.tla: start by new / default / collect (value, reference), then any mix of extend (value, "
+                "reference, empty chunks included) and add, over every sequence up to the length bound; executed through the real "
+                "FromIterator / Extend impls of 7 moment types, Min, Max, WeightedMean, WeightedMeanWithError, Covariance and four "
+                "concatenate! structs (short and long syntax, 2-4 fields, a Probe estimator logging every forwarded add); all "
+                "accessors compared bit for bit with the plain add loop; estimate() against the headline accessor",
+        "bounds": {"quick": "sequences <= 4, <= 4 steps, chunks <= 2", "thorough": "sequences <= 5, <= 5 steps"},
+        "assumptions": ["Max has no Extend impl in this tree: extend steps fall back to add for Max",
+                        "concatenate! structs have no Extend: behaviours containing extend are skipped for them (counted)"],
+    },
+    "C19": {
+        "title": "parallel collection gives the sequential answer under every schedule",
+        "mc": [{"module": "MC_Rayon", "cfg": "MC_Rayon.cfg", "overrides": {"N": ("4", "5"), "Ids": ("{1, 2, 3, 4, 5, 6, 7, 8}", "{1, 2, 3, 4, 5, 6, 7, 8, 9, 10}")}, "timeout": 7200},
+               MC_MERGE],
+        "replay": [{"module": "Gen_Moments", "cfg": "Gen_Moments_rayon.cfg",
+                    "overrides": {"MaxLen": ("4", "5"), "Slots": ("{1, 2, 3, 4, 5, 6}", "{1, 2, 3, 4, 5, 6, 7, 8}")},
+                    "family": "moments", "types": ALLM, "embeddings": "E0,E3,E5"}],
+        "trace": [{"module": "Trace_Rayon", "cfg": "Trace_Rayon.cfg", "family": "rayon", "args": {"reps": ("2", "8")}, "timeout": 3600}],
+        "direct": [{"cmd": "direct", "family": "rayon", "args": {"max_n": ("10000", "1000000"), "reps": ("2", "4")}}],
+        "rule": "(a) Rayon.tla model-checked: every split tree and join order of N items returns an object holding 0..N-1 in order; "
+                "(b) every fold/reduce-shaped history (every partition into <= 3-4 leaves, each merging its accumulator into an empty "
+                "identity, joins in any order) replayed on ten real types; (c) the repository's impl_from_par_iterator! macro "
+                "instantiated on a logging Probe and run on real pools (1..16 threads x 12 lengths x 5 splitting limits x repetitions): "
+                "every recorded schedule validated by TLC against Rayon.tla; (d) collect::<T>() on the real types under 5 pool sizes, "
+                "by value and by reference, against exact statistics",
+        "bounds": {"quick": "N <= 4 model-checked; 720 recorded schedules; direct n <= 10^4", "thorough": "N <= 5; 2,880 recorded schedules; direct n <= 10^6"},
+        "assumptions": ["rayon's scheduler is not modelled below fold/reduce: the schedule model is validated against observed schedules",
+                        "a Probe object is owned by one thread at a time, so logging under one mutex inside each call gives a total order "
+                        "consistent with every object's history"],
+    },
 }
